@@ -53,7 +53,7 @@ MANIFEST = {
     "C11": {"text": "Gated.v models gated.Filter as atomic critical sections over the ordered group list with a ghost history; theorems (every list of "
                     "critical sections = every interleaving, every ComposeFrom/Send fault oracle, every clock): exactly_once / accounting (permutation), "
                     "group_integrity (each composite = the events of its id pending since the group opened, in arrival order), dests_permitted (discard only "
-                    "for no-Broker / compose error / Gateable composite / send error), accepted_withheld, flush_returns_group, non_gateable_identity, "
+                    "for no-Broker / compose error / Gateable composite / send error), handed_over_exactly_once_after_flush, accepted_withheld, flush_returns_group, non_gateable_identity, "
                     "empty_id_rejected, broker_composites_not_gateable; tie: gatedh runs every history to depth 5 (quick) / 7 (thorough, up to id renaming) "
                     "over {event(3 ids, flush?), no-id event, non-Gateable, clock advances 1/exp-1/exp/exp+1, FlushAll, Close} x Broker set/unset x fault "
                     "oracles, random histories to 200 calls over 5 ids and concurrent senders on the real filter; Run_Gated.mismatches compares result, "
